@@ -551,6 +551,17 @@ func main() {
 			run.Count("folding_code_point_strings", 1)
 		}
 	}
+	// hosts as other parsers read them (net/netip, net/url, net.SplitHostPort): address literals with a
+	// dotted-quad tail, zones, bare and odd brackets, with and without ports, and names of exactly the
+	// shapes the grammar's own character classes allow but no real host has
+	for _, h := range []string{"[::ffff:192.0.2.1]", "[::ffff:192.0.2.1]:5000", "[64:ff9b::192.0.2.33]:443", "[::1.2.3.4]:80", "[::1.2.3.4]", "[fe80::1%eth0]", "[fe80::1%25eth0]:80", "[::1]:65536", "[::1]:0",
+		"[abcd]", "[1]", "[abcd]:80", "[:]", "[::]", "[]", "[]:80", "[g]", "[::1", "::1]", "::1", "1::", "[::1]]", "[[::1]]", "[::1]:", "[::1]:http", "192.0.2.1:5000", "192.0.2.1", "0x7f.1", "127.1", "1.2.3.4.5", "256.256.256.256:1",
+		"localhost", "localhost:", "localhost:0", "LOCALHOST:5000", "Example.COM", "example.com.", ".example.com", "a..b", "a-.b", "-a.b", "xn--bcher-kva.example", "a_b.example", "user@host.example", "host.example:5000:1"} {
+		all(h, true)
+		all(h+"/repo", false)
+		all(h+"/repo:tag", false)
+		run.Count("host_shaped_strings", 1)
+	}
 	// repository names made of the routing layer's own words, adjacent and in order
 	for _, s := range []string{"mirror/blobs/uploads", "blobs/uploads", "x/blobs/uploads/y", "mirror/blobs/uploads-v2/cache", "a/blobs/uploads/b/blobs/uploads",
 		"manifests/tags/list", "a/tags/list/b", "tags/list", "v2/_catalog", "v2", "x/manifests/y", "x/referrers/y", "blobs", "uploads", "a/blobs/b", "a/manifests",
